@@ -277,4 +277,55 @@ theorem stepBatch_some_of_holds (max : Nat) (s : Sys) (j : Nat) (pc : PC) (hj : 
   unfold stepBatch
   cases pc <;> simp_all [stepThread, PC.holds]
 
+/-! ### names of the gRPC-peer permutations -/
+
+theorem markName_shape (pre simple : List String) (m : String) :
+    markName (pre ++ simple) simple m = pre ++ m :: simple := by
+  simp [markName, namePrefix]
+
+/-- split at the only occurrence of `m` -/
+theorem split_unique {α} [DecidableEq α] (m : α) : ∀ (p1 s1 p2 s2 : List α), m ∉ p1 → m ∉ p2 →
+    p1 ++ m :: s1 = p2 ++ m :: s2 → p1 = p2 ∧ s1 = s2 := by
+  intro p1
+  induction p1 with
+  | nil =>
+    intro s1 p2 s2 _ h2 h
+    cases p2 with
+    | nil => simp at h; exact ⟨rfl, h⟩
+    | cons y ys =>
+      simp only [List.nil_append, List.cons_append, List.cons.injEq] at h
+      exact absurd (by rw [h.1]; simp) h2
+  | cons x xs ih =>
+    intro s1 p2 s2 h1 h2 h
+    cases p2 with
+    | nil =>
+      simp only [List.nil_append, List.cons_append, List.cons.injEq] at h
+      exact absurd (by rw [← h.1]; simp) h1
+    | cons y ys =>
+      simp only [List.cons_append, List.cons.injEq] at h
+      have := ih s1 ys s2 (fun hm => h1 (by simp [hm])) (fun hm => h2 (by simp [hm])) h.2
+      exact ⟨by rw [h.1, this.1], this.2⟩
+
+theorem markName_inj (p1 s1 p2 s2 : List String) (m : String)
+    (h1 : m ∉ p1 ++ s1) (h2 : m ∉ p2 ++ s2)
+    (h : markName (p1 ++ s1) s1 m = markName (p2 ++ s2) s2 m) : p1 = p2 ∧ s1 = s2 := by
+  rw [markName_shape, markName_shape] at h
+  exact split_unique m p1 s1 p2 s2 (fun hm => h1 (by simp [hm])) (fun hm => h2 (by simp [hm])) h
+
+theorem marked_nodup (m : String) : ∀ (lib : List (List String × List String)),
+    (lib.map (fun e => e.1 ++ e.2)).Nodup → (∀ e ∈ lib, m ∉ e.1 ++ e.2) →
+    (lib.map (fun e => markName (e.1 ++ e.2) e.2 m)).Nodup := by
+  intro lib
+  induction lib with
+  | nil => intro _ _; simp
+  | cons e rest ih =>
+    intro hn hm
+    simp only [List.map_cons, List.nodup_cons] at hn ⊢
+    refine ⟨?_, ih hn.2 (fun e' he' => hm e' (by simp [he']))⟩
+    intro hmem
+    obtain ⟨e', he', heq⟩ := List.mem_map.mp hmem
+    have := markName_inj e'.1 e'.2 e.1 e.2 m (hm e' (by simp [he'])) (hm e (by simp)) heq
+    apply hn.1
+    exact List.mem_map.mpr ⟨e', he', by rw [this.1, this.2]⟩
+
 end ConfModel.Run
